@@ -415,13 +415,57 @@ class Inliner:
         return [loc(o, st) for o in out] or [loc(ast.Pass(), st)]
 
 
+# ------------------------------------------------------------------------------------------------ 1a. library spellings
+def library_spellings(tree, stats):
+    """Expression-level spellings that say the same thing: list(map(f, xs)) is [f(x) for x in xs];
+    list(chain.from_iterable(<comprehension of E>)) is [t for .. for t in E]; s.startswith((a, b)) is s.startswith(a) or s.startswith(b);
+    isinstance(x, (A, B)) is isinstance(x, A) or isinstance(x, B)."""
+    count = {}
+
+    def bump(k):
+        count[k] = count.get(k, 0) + 1
+
+    class R(ast.NodeTransformer):
+        def visit_Call(self, c):
+            self.generic_visit(c)
+            f = c.func
+            if isinstance(f, ast.Name) and f.id == "list" and len(c.args) == 1 and not c.keywords and isinstance(c.args[0], ast.Call):
+                inner = c.args[0]
+                if isinstance(inner.func, ast.Name) and inner.func.id == "map" and len(inner.args) == 2 and not inner.keywords:
+                    bump("list(map)")
+                    return loc(ast.ListComp(elt=ast.Call(func=inner.args[0], args=[ast.Name(id="_m", ctx=ast.Load())], keywords=[]),
+                                            generators=[ast.comprehension(target=ast.Name(id="_m", ctx=ast.Store()), iter=inner.args[1], ifs=[], is_async=0)]), c)
+                d = ast.unparse(inner.func)
+                if d in ("chain.from_iterable", "itertools.chain.from_iterable") and len(inner.args) == 1 and not inner.keywords:
+                    src = inner.args[0]
+                    bump("list(chain.from_iterable)")
+                    if isinstance(src, (ast.GeneratorExp, ast.ListComp)):
+                        gens = list(src.generators) + [ast.comprehension(target=ast.Name(id="_t", ctx=ast.Store()), iter=src.elt, ifs=[], is_async=0)]
+                    else:
+                        gens = [ast.comprehension(target=ast.Name(id="_s", ctx=ast.Store()), iter=src, ifs=[], is_async=0),
+                                ast.comprehension(target=ast.Name(id="_t", ctx=ast.Store()), iter=ast.Name(id="_s", ctx=ast.Load()), ifs=[], is_async=0)]
+                    return loc(ast.ListComp(elt=ast.Name(id="_t", ctx=ast.Load()), generators=gens), c)
+            if isinstance(f, ast.Attribute) and f.attr in ("startswith", "endswith") and len(c.args) == 1 and not c.keywords and isinstance(c.args[0], ast.Tuple) \
+                    and 2 <= len(c.args[0].elts) <= 4 and _simple_arg(f.value):
+                bump("startswith(tuple)")
+                return loc(ast.BoolOp(op=ast.Or(), values=[ast.Call(func=copy.deepcopy(f), args=[e], keywords=[]) for e in c.args[0].elts]), c)
+            if isinstance(f, ast.Name) and f.id == "isinstance" and len(c.args) == 2 and not c.keywords and isinstance(c.args[1], ast.Tuple) and 2 <= len(c.args[1].elts) <= 4 \
+                    and _simple_arg(c.args[0]):
+                bump("isinstance(tuple)")
+                return loc(ast.BoolOp(op=ast.Or(), values=[ast.Call(func=ast.Name(id="isinstance", ctx=ast.Load()), args=[copy.deepcopy(c.args[0]), e], keywords=[]) for e in c.args[1].elts]), c)
+            return c
+    R().visit(tree)
+    for k, v in count.items():
+        stats[f"spelling:{k}"] = stats.get(f"spelling:{k}", 0) + v
+
+
 # ------------------------------------------------------------------------------------------------ 1b. new named constants
 def _immutable_constant(v):
     """A value expression that is a constant of an immutable type (so naming it changes nothing but the text)."""
     if isinstance(v, ast.Constant):
         return True
     if isinstance(v, ast.Tuple):
-        return all(_immutable_constant(e) for e in v.elts)
+        return all(_immutable_constant(e) or (_simple_arg(e) and not isinstance(e, ast.Constant)) for e in v.elts)      # a table may name existing objects
     if isinstance(v, ast.UnaryOp):
         return _immutable_constant(v.operand)
     if isinstance(v, ast.BinOp):
@@ -587,6 +631,38 @@ def canon_block(block, fn, counts):
     while i < len(block):
         st = block[i]
         nxt = block[i + 1] if i + 1 < len(block) else None
+        # loop body: `if c: continue` + rest  ->  `if not c: rest`
+        if isinstance(st, (ast.For, ast.While)):
+            b = st.body
+            k = 0
+            while k < len(b) - 1:
+                g = b[k]
+                if isinstance(g, ast.If) and not g.orelse and len(g.body) == 1 and isinstance(g.body[0], ast.Continue):
+                    b[k:] = [loc(ast.If(test=negate(g.test), body=b[k + 1:], orelse=[]), g)]
+                    counts["continue-guard->nested"] = counts.get("continue-guard->nested", 0) + 1
+                    b = b[k].body
+                    k = 0
+                    continue
+                k += 1
+        # for T in I: if C: break  else: S     ->   if not any(C for T in I): S
+        if isinstance(st, ast.For) and st.orelse and len(st.body) == 1 and isinstance(st.body[0], ast.If) and not st.body[0].orelse \
+                and len(st.body[0].body) == 1 and isinstance(st.body[0].body[0], ast.Break):
+            anyc = ast.Call(func=ast.Name(id="any", ctx=ast.Load()), args=[ast.GeneratorExp(elt=st.body[0].test, generators=[ast.comprehension(target=st.target, iter=st.iter, ifs=[], is_async=0)])], keywords=[])
+            block[i] = loc(ast.If(test=ast.UnaryOp(op=ast.Not(), operand=anyc), body=st.orelse, orelse=[]), st)
+            counts["for-else search->any"] = counts.get("for-else search->any", 0) + 1
+            continue
+        # for x in (a, b): BODY   ->   BODY[x:=a] ; BODY[x:=b]      (a short literal sequence, no break/continue, x not rebound)
+        if isinstance(st, ast.For) and not st.orelse and isinstance(st.iter, (ast.Tuple, ast.List)) and 1 <= len(st.iter.elts) <= 4 and isinstance(st.target, ast.Name) \
+                and not any(isinstance(e, ast.Starred) for e in st.iter.elts) and all(_simple_arg(e) for e in st.iter.elts) \
+                and not any(isinstance(n, (ast.Break, ast.Continue)) for n in ast.walk(st)) \
+                and not any(isinstance(n, ast.Name) and n.id == st.target.id and isinstance(n.ctx, (ast.Store, ast.Del)) for b_ in st.body for n in ast.walk(b_)):
+            out = []
+            for e in st.iter.elts:
+                for b_ in st.body:
+                    out.append(loc(_Subst({st.target.id: e}).visit(copy.deepcopy(b_)), b_))
+            block[i:i + 1] = out
+            counts["literal-loop-unrolled"] = counts.get("literal-loop-unrolled", 0) + 1
+            continue
         # X.extend(A if c else B)  ->  if c: X.extend(A) else: X.extend(B)   (update alike; a single-item append/add keeps its conditional value)
         if isinstance(st, ast.Expr) and isinstance(st.value, ast.Call) and isinstance(st.value.func, ast.Attribute) and st.value.func.attr in ("extend", "update") \
                 and len(st.value.args) == 1 and not st.value.keywords and isinstance(st.value.args[0], ast.IfExp):
@@ -801,6 +877,47 @@ def _merge_accumulators(fn, counts):
             i = 0
 
 
+def _unroll_literal_comprehensions(fn, counts):
+    """{k: E for k, v in ((a, b), (c, d))} and [E for x in (a, b)] over a short literal sequence are the displays they denote."""
+    class U(ast.NodeTransformer):
+        def visit_DictComp(self, n):
+            self.generic_visit(n)
+            items = self._items(n)
+            if items is None:
+                return n
+            counts["literal-comprehension-unrolled"] = counts.get("literal-comprehension-unrolled", 0) + 1
+            return loc(ast.Dict(keys=[_Subst(m).visit(copy.deepcopy(n.key)) for m in items], values=[_Subst(m).visit(copy.deepcopy(n.value)) for m in items]), n)
+
+        def visit_ListComp(self, n):
+            self.generic_visit(n)
+            items = self._items(n)
+            if items is None:
+                return n
+            counts["literal-comprehension-unrolled"] = counts.get("literal-comprehension-unrolled", 0) + 1
+            return loc(ast.List(elts=[_Subst(m).visit(copy.deepcopy(n.elt)) for m in items], ctx=ast.Load()), n)
+
+        @staticmethod
+        def _items(n):
+            if len(n.generators) != 1 or n.generators[0].ifs or n.generators[0].is_async:
+                return None
+            g = n.generators[0]
+            if not isinstance(g.iter, (ast.Tuple, ast.List)) or not (1 <= len(g.iter.elts) <= 8) or any(isinstance(e, ast.Starred) for e in g.iter.elts):
+                return None
+            out = []
+            for e in g.iter.elts:
+                if isinstance(g.target, ast.Name):
+                    if not _simple_arg(e):
+                        return None
+                    out.append({g.target.id: e})
+                elif isinstance(g.target, ast.Tuple) and all(isinstance(t, ast.Name) for t in g.target.elts) and isinstance(e, (ast.Tuple, ast.List)) \
+                        and len(e.elts) == len(g.target.elts) and all(_simple_arg(x) for x in e.elts):
+                    out.append({t.id: x for t, x in zip(g.target.elts, e.elts)})
+                else:
+                    return None
+            return out
+    U().visit(fn)
+
+
 def _single_use_temps(fn, counts):
     """`t = E` directly followed by the only use of t (t bound nowhere else): substitute E for t."""
     changed = True
@@ -853,6 +970,8 @@ def _single_use_temps(fn, counts):
                 bad = False
                 path = _path_to(where, use)
                 for a in path:
+                    if isinstance(a, (ast.ListComp, ast.SetComp, ast.DictComp, ast.GeneratorExp)) and any(x is use for x in ast.walk(a.generators[0].iter)):
+                        continue        # the first iterable of a comprehension is evaluated once, where the comprehension stands
                     if isinstance(a, (ast.ListComp, ast.SetComp, ast.DictComp, ast.GeneratorExp, ast.IfExp, ast.BoolOp, ast.Lambda)):
                         bad = True
                 if bad:
@@ -1299,6 +1418,7 @@ def normalise(tree, modname, keyword_names=frozenset(), ref=None, stats=None):
     mark_real(tree)
     known = set(ref.get("inventory", {}).get(modname, []))
     if known:
+        library_spellings(tree, stats)
         propagate_new_constants(tree, modname, set(ref.get("module_names", {}).get(modname, [])), stats)
         attr_access_by_name(tree, stats)
         inl = Inliner(tree, modname, known)
@@ -1315,6 +1435,7 @@ def normalise(tree, modname, keyword_names=frozenset(), ref=None, stats=None):
         _global_aliases(fn, stats)
         _merge_accumulators(fn, stats)
         _single_use_temps(fn, stats)
+        _unroll_literal_comprehensions(fn, stats)
     roles = ref.get("roles", {})
     for q, fn in top_functions(tree, modname):
         if q in roles:
@@ -1410,14 +1531,17 @@ def undo_function_renames(trees, ref=None, stats=None):
                     idents.add(n.asname)
             elif isinstance(n, FUNC + (ast.ClassDef,)):
                 idents.add(n.name)
+    def private(name):
+        """Only private names can be renamed without changing behaviour: public names are the API, dunder and visit_* methods are looked up by name."""
+        return name.startswith("_") and not (name.startswith("__") and name.endswith("__"))
     renames = {}
     for m, tree in trees.items():       # module-level variables first: same value text, reference name gone, new name unknown
         refvals = ref.get("module_values", {}).get(m, {})
         curvals = module_level_values(tree)
         for v, text in refvals.items():
-            if v in curvals or v in idents:
+            if v in curvals or v in idents or not private(v):
                 continue
-            cands = [n for n, t in curvals.items() if t == text and n not in refvals and n not in ref.get("module_names", {}).get(m, [])]
+            cands = [n for n, t in curvals.items() if t == text and n not in refvals and n not in ref.get("module_names", {}).get(m, []) and private(n)]
             if len(cands) == 1 and cands[0] not in renames and v not in renames.values():
                 renames[cands[0]] = v
     for m, tree in trees.items():
@@ -1429,14 +1553,47 @@ def undo_function_renames(trees, ref=None, stats=None):
         gone = [q for q in known if q not in cur]
         for v in gone:
             vname = v.rsplit(".", 1)[1].split("#")[0]
-            if vname in idents or v not in fps:
+            if vname in idents or v not in fps or not private(vname):
                 continue
-            cands = [q for q, f in new.items() if q.rsplit(".", 1)[0] == v.rsplit(".", 1)[0] and fingerprint(f) == fps[v]]
+            cands = [q for q, f in new.items() if q.rsplit(".", 1)[0] == v.rsplit(".", 1)[0] and fingerprint(f) == fps[v] and private(q.rsplit(".", 1)[1])]
             if len(cands) == 1:
                 nname = cands[0].rsplit(".", 1)[1]
                 if nname not in renames and vname not in renames.values() and not (nname.startswith("__") and nname.endswith("__")):
                     renames[nname] = vname
                     del new[cands[0]]
+    # a method that became a module-level function of the same module (first parameter = the former receiver): moved back
+    moved = []
+    for m, tree in trees.items():
+        known = set(inv.get(m, []))
+        if not known:
+            continue
+        cur = dict(top_functions(tree, m))
+        for v in [q for q in known if q not in cur and q.count(".") == 2 and q in fps]:
+            cname, vname = v.split(".")[1], v.split(".")[2].split("#")[0]
+            if not private(vname):
+                continue
+            cls = next((c for c in tree.body if isinstance(c, ast.ClassDef) and c.name == cname), None)
+            if cls is None or any(isinstance(x, FUNC) and x.name == vname for x in cls.body):
+                continue
+            cands = [f for q, f in cur.items() if q.count(".") == 1 and q not in known and f in tree.body and fingerprint(f) == fps[v] and f.name not in renames and private(f.name)]
+            if len(cands) != 1:
+                continue
+            f = cands[0]
+            old = f.name
+            tree.body.remove(f)
+            f.name = vname
+            cls.body.append(f)
+            for t in trees.values():
+                for n in ast.walk(t):
+                    if isinstance(n, ast.Call) and isinstance(n.func, ast.Name) and n.func.id == old and n.args and not isinstance(n.args[0], ast.Starred):
+                        n.func = ast.copy_location(ast.Attribute(value=n.args[0], attr=vname, ctx=ast.Load()), n.func)
+                        n.args = n.args[1:]
+                for n in ast.walk(t):
+                    if isinstance(n, ast.Name) and n.id == old:
+                        n.id = f"{cname}.{vname}"       # a remaining reference by value (rare): spelled as the class attribute
+            moved.append(f"{m}.{old}->{v}")
+    if moved and stats is not None:
+        stats["functions-moved-back-into-class"] = moved
     if not renames:
         return {}
     for t in trees.values():
